@@ -146,3 +146,91 @@ Proof.
       intros q [<-|Hq] Hk; [|apply Hrs; assumption].
       apply String.eqb_neq in E. contradiction.
 Qed.
+
+(* ---- pinned constraints (after /repo 8ac3bda): pins of one project are merged, never overwritten ---- *)
+Lemma slookup_replace k m (pins : list (string * req)) k' :
+  slookup k' (map (fun p => if String.eqb (fst p) k then (k, m) else p) pins) =
+  if String.eqb k' k then (match slookup k pins with Some _ => Some m | None => None end) else slookup k' pins.
+Proof.
+  induction pins as [|[k0 p0] pins IH]; cbn [map slookup fst].
+  - destruct (String.eqb k' k); reflexivity.
+  - destruct (String.eqb k0 k) eqn:E0; cbn [slookup].
+    + apply String.eqb_eq in E0. subst k0. rewrite String.eqb_refl.
+      destruct (String.eqb k' k) eqn:E1; [reflexivity|]. rewrite ?IH, ?E1. reflexivity.
+    + destruct (String.eqb k' k0) eqn:E2.
+      * apply String.eqb_eq in E2. subst k0. rewrite E0. reflexivity.
+      * rewrite IH. destruct (String.eqb k' k) eqn:E1; [|reflexivity].
+        apply String.eqb_eq in E1. subst k'. rewrite String.eqb_sym in E0. rewrite E0. reflexivity.
+Qed.
+
+Lemma slookup_app_new {A} k (v : A) l k' :
+  slookup k l = None -> slookup k' (l ++ [(k, v)]) = if String.eqb k' k then Some v else slookup k' l.
+Proof.
+  intros Hn. induction l as [|[k0 v0] l IH]; cbn [app slookup].
+  - reflexivity.
+  - cbn [slookup] in Hn. destruct (String.eqb k k0) eqn:E0; [discriminate|].
+    destruct (String.eqb k' k0) eqn:E2.
+    + apply String.eqb_eq in E2. subst k0. rewrite String.eqb_sym in E0. rewrite E0. reflexivity.
+    + apply IH. exact Hn.
+Qed.
+
+Lemma existsb_slookup k (pins : list (string * req)) :
+  existsb (fun p => String.eqb (fst p) k) pins = match slookup k pins with Some _ => true | None => false end.
+Proof.
+  induction pins as [|[k0 p0] pins IH]; cbn [existsb slookup fst]; [reflexivity|].
+  rewrite String.eqb_sym. destruct (String.eqb k k0); [reflexivity|exact IH].
+Qed.
+
+Lemma add_pins_stronger rs : forall pins out,
+  add_pins rs pins = Rok out ->
+  (forall k p, slookup k pins = Some p -> exists m, slookup k out = Some m /\ stronger m p) /\
+  (forall r, In r rs -> exists m, slookup (norm (safe_name (rname r))) out = Some m /\ stronger m r).
+Proof.
+  induction rs as [|r rs IH]; intros pins out H; cbn [add_pins] in H.
+  - injection H as <-. split; [|intros r []]. intros k p Hp. exists p; split; [exact Hp|apply stronger_refl].
+  - set (k := norm (safe_name (rname r))) in *.
+    unfold bind, lift_merge in H. destruct (merge (slookup k pins) (Some r)) as [m|] eqn:Hm; [|discriminate].
+    assert (Hm' : stronger m r /\ (forall p, slookup k pins = Some p -> stronger m p)).
+    { destruct (slookup k pins) as [p|].
+      - destruct (merge_stronger _ _ _ Hm) as [S1 S2]. split; [exact S2|]. intros p' [= <-]. exact S1.
+      - cbn in Hm. injection Hm as <-. split; [apply stronger_refl|]. intros p' Hp'. discriminate. }
+    destruct Hm' as [Hmr Hmp].
+    set (pins1 := if existsb (fun p => String.eqb (fst p) k) pins
+                  then map (fun p => if String.eqb (fst p) k then (k, m) else p) pins
+                  else pins ++ [(k, m)]) in *.
+    assert (Hl : forall k', slookup k' pins1 = if String.eqb k' k then Some m else slookup k' pins).
+    { intros k'. unfold pins1. rewrite existsb_slookup. destruct (slookup k pins) as [p|] eqn:Hp.
+      - rewrite slookup_replace, Hp. reflexivity.
+      - apply slookup_app_new. exact Hp. }
+    destruct (IH _ _ H) as [Hold Hnew]. split.
+    + intros k' p Hp. destruct (String.eqb_spec k' k) as [->|Hne].
+      * destruct (Hold k m) as [m2 [Hm2 S2]]; [rewrite Hl, String.eqb_refl; reflexivity|].
+        exists m2; split; [exact Hm2|]. eapply stronger_trans; [exact S2|apply Hmp; exact Hp].
+      * apply Hold. rewrite Hl. destruct (String.eqb_spec k' k); [contradiction|exact Hp].
+    + intros r' [<-|Hin]; [|apply Hnew; exact Hin].
+      destruct (Hold k m) as [m2 [Hm2 S2]]; [rewrite Hl, String.eqb_refl; reflexivity|].
+      exists m2; split; [exact Hm2|]. eapply stronger_trans; eassumption.
+Qed.
+
+Lemma collect_pins_stronger cons : forall ap pins ap' out,
+  collect_pins cons ap pins = Rok (ap', out) -> ap' = true ->
+  (forall k p, slookup k pins = Some p -> exists m, slookup k out = Some m /\ stronger m p) /\
+  (forall c r, In c cons -> In r (dreqs c) -> exists m, slookup (norm (safe_name (rname r))) out = Some m /\ stronger m r).
+Proof.
+  induction cons as [|c cons IH]; intros ap pins ap' out H Hap; cbn [collect_pins] in H.
+  - injection H as <- <-. split; [|intros c r []]. intros k p Hp. exists p; split; [exact Hp|apply stronger_refl].
+  - unfold bind in H.
+    destruct (ap && forallb is_pinned_req (dreqs c)) eqn:E.
+    + destruct (add_pins (dreqs c) pins) as [pins'|] eqn:Ha; [|discriminate].
+      destruct (add_pins_stronger _ _ _ Ha) as [Hold Hnew].
+      destruct (IH _ _ _ _ H Hap) as [IHold IHnew]. split.
+      * intros k p Hp. destruct (Hold k p Hp) as [m1 [H1 S1]]. destruct (IHold k m1 H1) as [m2 [H2 S2]].
+        exists m2; split; [exact H2|eapply stronger_trans; eassumption].
+      * intros c' r [<-|Hin] Hr; [|eapply IHnew; eassumption].
+        destruct (Hnew r Hr) as [m1 [H1 S1]]. destruct (IHold _ m1 H1) as [m2 [H2 S2]].
+        exists m2; split; [exact H2|eapply stronger_trans; eassumption].
+    + (* once a constraint file is not fully pinned, all_pinned stays false *)
+      exfalso. clear IH. revert pins H. induction cons as [|c' cons IHc]; intros pins H; cbn [collect_pins] in H.
+      * injection H as <- _. discriminate.
+      * cbn [andb bind] in H. apply (IHc pins). exact H.
+Qed.
